@@ -323,6 +323,11 @@ def report(ctx, fails, labels):
             continue
         blk = h.get("block", "?")
         sig = f"{blk}:{label}"
+        if label == "panic":
+            # the panic message is part of the signature, so that a known
+            # finding does not hide a different panic of the same block
+            msg = (ev.get("verdict") or {}).get("msg", "")
+            sig += ":" + "".join(ch if ch.isalnum() else "_" for ch in msg[:48])
         # replay file: the scenario's events up to the failing one, plus the group's reference run
         rp = ctx.path("bench-replay.ndjson")
         with open(tf) as f:
